@@ -29,3 +29,25 @@ Definition hill2 (F G H L M N : R) (s : list R) : R :=
 
 Ltac spec_unfold := unfold kin_seq2, hill2, backstress, brick_sig, norton_seq2, seq2, dev, hooke, lame_lambda, lame_mu,
   vadd, vsub, vscal, vdot, vmap2, tabulate, diag3, tr3, sublist, nthR in *.
+
+(* ---- fourth round: helpers of the proofs of the added configurations (value-returning, so that a failure of what follows is
+   not reported as a failure of the match) ---- *)
+(* the base c of an [Rpower c _] that occurs inside the base of another [Rpower _ _] of the body of T *)
+Ltac inner_rpower_base T :=
+  let t := eval unfold T in T in
+  match t with context[Rpower ?b _] => match b with context[Rpower ?c _] => c end end.
+(* the base of an [Rpower b _] of the body of T that contains the term w (a local definition) *)
+Ltac rpower_base_containing T w :=
+  let t := eval unfold T in T in
+  match t with context[Rpower ?b _] => match b with context[w] => b end end.
+(* the argument of a [sqrt] of the body of T that is not sb (a second square root) *)
+Ltac other_sqrt_arg T sb :=
+  let t := eval unfold T in T in
+  match t with context[sqrt ?b] => lazymatch b with sb => fail | _ => b end end.
+(* hyperbolic sine written with one exponential, (exp x - 1/exp x)/2, is positive for x > 0 *)
+Lemma exp_minus_inv_pos x : 0 < x -> 0 < (exp x - / exp x) / 2.
+Proof.
+  intro Hx. assert (H1 : 1 < exp x) by (rewrite <- exp_0; apply exp_increasing; exact Hx).
+  assert (H2 : / exp x < 1) by (rewrite <- Rinv_1; apply Rinv_lt_contravar; lra).
+  lra.
+Qed.
